@@ -1,5 +1,23 @@
+//! Checks on `astria-conductor` (through its `verif` feature): C09, C10 and the conductor part of
+//! C17.
+
+mod c09;
+mod c10;
+mod c17;
+mod chain;
+mod fake_rollup;
+mod rfc6962;
+mod wire;
+
 fn main() {
-    let (id, _args) = vcommon::split_args();
-    eprintln!("vconductor does not host property {id} yet");
-    std::process::exit(2);
+    let (id, args) = vcommon::split_args();
+    match id.as_str() {
+        "C09" => c09::run(&args),
+        "C10" => c10::run(&args),
+        "C17" => c17::run(&args),
+        other => {
+            eprintln!("vconductor does not host property {other}");
+            std::process::exit(2);
+        }
+    }
 }
